@@ -170,7 +170,7 @@ def stack_frame_check(block, res):
 
 @prop("C17")
 def c17(tier, seed, **kw):
-    n = 400 if tier == "quick" else 12000
+    n = 400 if tier == "quick" else 4000
     lines, hist = gen_stack_cases(seed, n)
     return hand_check(
         "C17", lines, hist,
